@@ -88,6 +88,7 @@ func execCapScript(script string) string {
 	}
 	var inflight []flight
 	var weak *capnp.WeakClient
+	var staleT *capnp.Client // the T handle released most recently
 	var parked []chan struct{} // Release / Fulfill calls that did not return yet
 	// settle waits for background operations that can finish to finish
 	settle := func() {
@@ -185,7 +186,22 @@ func execCapScript(script string) string {
 				break
 			}
 			c := pop(&poolT)
+			staleT = c
 			res = bg(c.Release)
+		case "staleT":
+			// a released handle is dead whatever other handles exist: not valid, calls through it are refused
+			if staleT == nil {
+				res = "skip"
+				break
+			}
+			before := atomic.LoadInt32(&ht.entered) + atomic.LoadInt32(&hp.entered)
+			res = callResult(staleT)
+			if staleT.IsValid() {
+				res += "!released-handle-still-valid"
+			}
+			if atomic.LoadInt32(&ht.entered)+atomic.LoadInt32(&hp.entered) != before {
+				res += "!call-through-released-handle-delivered"
+			}
 		case "relP":
 			if len(poolP) == 0 {
 				res = "skip"
@@ -443,7 +459,7 @@ func execCap(t []string) string {
 	return "bad-op"
 }
 
-var capOps = []string{"addT", "addP", "relT", "relP", "callT", "callP", "weakT", "fulfill", "fulfillNil",
+var capOps = []string{"addT", "addP", "relT", "relP", "callT", "callP", "weakT", "fulfill", "fulfillNil", "staleT",
 	"beginT", "beginP", "end", "end", "mkweakT", "upT"}
 
 // execCapChain: a two-level promise chain, fulfilled inside-out with no operation on the middle client in
